@@ -39,8 +39,8 @@ def lattice(chk, binary, fn):
 
 def make_search(chk, binary):
     def search(name):
-        """A theorem stopped elaborating: look for a concrete small-integer vector (three scales: direct branch,
-        lengthTiny branch, subnormal) on which the REAL code disagrees with the exact norm / quotient.  Only the function
+        """A theorem stopped elaborating: look for a concrete small-integer vector (four scales: direct branch,
+        lengthTiny branch for underflow, subnormal, lengthTiny branch for overflowing squares) on which the REAL code disagrees with the exact norm / quotient.  Only the function
         the theorem is about (and the length() it calls) is consulted, so that a theorem which fails merely because a
         sibling's lemma module no longer builds is reported without a misleading input."""
         if not binary:
@@ -57,7 +57,7 @@ def make_search(chk, binary):
                 return {"key": "theorem:" + name, "real_code_function": p[1], "element_type": p[2], "what": p[3],
                         "failing_input_hex_floats": p[4][3:], "detail": " ".join(p[5:]), "falsified_lattice_cases": len(fails),
                         "replay_cmd": ".build/bin/c08_residue %d lattice %s" % (chk.seed, f or "all"),
-                        "oracle": "113-bit sqrt of the exact sum of squares on the integer lattice [-3,3]^N x {1, 2^(emin/2-8), 2^(eminsub+4)}"}
+                        "oracle": "113-bit sqrt of the exact sum of squares on the integer lattice [-3,3]^N x {1, 2^(emin/2-8), 2^(eminsub+4), 2^(emax/2+6)}"}
         return None
     return search
 
@@ -82,11 +82,15 @@ def residue(chk, binary):
         chk.residues["C08"] = {
             "status": "MEASURED, NOT PROVED (level partial): floating-point accuracy of length()/normalize* against a 113-bit reference",
             "vectors": int(m.group(1)), "evaluations": int(m.group(2)), "random_mantissas_per_exponent": reps,
-            "exponents": "every binary exponent: float 2^-149..2^62, double 2^-1074..2^510",
-            "bounds": {"length_ulps": {"tiny-branch/subnormal-norm": 2.4, "tiny-branch/normal-norm": 3.7, "direct/near-threshold": 2.9, "direct": 2.6},
-                       "unit_err_eps": 2.8, "ratio_err_u": 4.8,
-                       "how_fixed": "clean-tree maximum over seeds 1-3 (2 and 24 mantissas per exponent) + 1: measured maxima "
-                                    "1.37 / 2.65 / 1.85 / 1.51 ulps, 1.71 eps, 3.80 u"},
+            "exponents": "every binary exponent: float 2^-149..2^126, double 2^-1074..2^1022 (components up to max/2: squares may "
+                         "overflow, the length is representable; a reference norm above max would be skipped: %s skipped)" % (
+                             (re.search(r"skipped_norm_above_max=(\d+)", out) or [None, "?"])[1]),
+            "bounds": {"length_ulps": {"tiny-branch/subnormal-norm": 2.5, "tiny-branch/normal-norm": 3.7, "direct/near-threshold": 3.2, "direct": 2.6,
+                                       "scaled-branch/squares-overflow": 3.7},
+                       "unit_err_eps": 2.8, "ratio_err_u": 4.9,
+                       "how_fixed": "clean-tree maximum over seeds 1-3 (2 and 24 mantissas per exponent) + 1, re-calibrated on /repo 16a5ca8: "
+                                    "measured maxima 1.44 / 2.65 / 2.15 / 1.58 ulps, overflow class 2.75 ulps (shares the bound of the "
+                                    "normal-norm scaled branch), 1.71 eps, 3.87 u"},
             "measured_this_run": {k: {c: max(v["max"] for v in d.values()) for c, d in cl.items()} for k, cl in agg.items()
                                   if k != "normalize_subnormal_norm_finite"},
             "per_class": agg}
@@ -108,17 +112,18 @@ def residue(chk, binary):
 
 def run(chk):
     chk.trusted = ["Lean 4.33 kernel; axioms propext/Classical.choice/Quot.sound at most", "Mathlib's ordered fields and Real.sqrt",
-                   "translator harness/sym (real Vec2/3/4::length bodies incl. lengthTiny: 5/65/257 paths), validated each run by TV "
+                   "translator harness/sym (real Vec2/3/4::length bodies incl. lengthTiny: 9/129/513 paths), validated each run by TV "
                    "(bitwise at float and double) and by evaluating the emitted Lean text at Rat",
                    "__float128 / libquadmath sqrtq as the oracle of the measured residue"]
     chk.assumptions = ["PARTIAL: ulp accuracy of length(), handling of underflowing / subnormal squares, and absence of NaN/inf in the "
                        "normalize family are NOT proved; they are measured against a 113-bit reference with bounds fixed at the "
                        "clean-tree maximum + 1 (structured sweep, not exhaustive)",
                        "theorems are about exact arithmetic over an ordered field with sqrt (and over R with Real.sqrt)"]
-    chk.rule = ("theorems: every vector and every threshold parameter tmin. residue: every binary exponent (smallest subnormal .. "
-                "sqrt(max)/2) x mantissas {1, 1.5, 1+ulp, 2-ulp, random} x {single non-zero component with signed zeros, all equal, "
+    chk.rule = ("theorems: every vector and all limit parameters tmin, tmax. residue: every binary exponent (smallest subnormal .. "
+                "max/2, so squares that overflow with a representable length are included) x mantissas {1, 1.5, 1+ulp, 2-ulp, random} x {single non-zero component with signed zeros, all equal, "
                 "mixed magnitudes with gaps 0..full range, signed zeros mixed} x Vec2/3/4 x float/double, plus vectors placed around "
-                "the 2*min threshold and around norm = min, plus all-zero sign patterns; integer lattice at three scales")
+                "the 2*min threshold, around norm = min and around the dot = max overflow guard, plus all-zero sign patterns; "
+                "integer lattice at four scales")
     bins = troute.build_extractors(chk, [dict(name="sym_leaf", source="sym/sym_leaf.cpp"), dict(name="sym_c08", source="sym/sym_c08.cpp")])
     okr, rbin, rlog = lib.cxx_build("c08_residue", ["corr/c08_residue.cpp"], libs=["-lquadmath"])
     chk.oblige("build:c08_residue", "build", okr, None if okr else rlog[-1500:])
@@ -142,11 +147,11 @@ def run(chk):
         chk.check_theorems(mod, required=REQUIRED_LEMMAS[mod], search=search)
     chk.check_theorems(PROPS, required=REQUIRED, search=search)
     if rbin:
-        # exact-semantics agreement of the REAL code with the proved spec on the integer lattice (three scales)
+        # exact-semantics agreement of the REAL code with the proved spec on the integer lattice (four scales)
         rc, out = lattice(chk, rbin, None)
         m = re.search(r"RESIDUE mode=lattice seed=\d+ vectors=(\d+) evals=(\d+) failures=(\d+)", out)
         okl = rc == 0 and m is not None and int(m.group(3)) == 0
-        chk.oblige("lattice: real length/length2/normalize* = norm / quotients on [-3,3]^N at three scales", "correspondence", okl)
+        chk.oblige("lattice: real length/length2/normalize* = norm / quotients on [-3,3]^N at four scales", "correspondence", okl)
         if m:
             chk.count(int(m.group(2)), int(m.group(2)))
             chk.extra["lattice"] = {"vectors": int(m.group(1)), "evaluations": int(m.group(2))}
